@@ -1110,6 +1110,11 @@ def construct(ex, cls_short, dyn_class_term, args, kwargs, st, node):
 
 
 def signature_of(c):
+    import os
+
+    if c.trusted and not os.path.exists(source.module_path(c.module)):
+        # an assumed contract on a function outside /repo (standard library): positional parameters as the contract names them
+        return ast.parse(f"def {c.qual.split('.')[-1]}({', '.join(c.params)}): pass").body[0]
     fnode, _, _ = source.find_def(c.module, c.qual)
     return fnode
 
